@@ -127,7 +127,7 @@ func TestC05Cli(t *testing.T) {
 		Property: "C05", Name: "cli", Quick: 1600, Thorough: 32000,
 		Rule: "`gotree reroot outgroup` (tips as arguments or -l file (one name per line, comma-separated, one long line in which a name straddles byte 4096 / 8192, one line of exactly that length without end of line), -r, --strict; clade, non-clade and absent names), `reroot midpoint`, `unroot`, `rotate sort`, `rotate rand --seed` on generated trees: the printed tree must be byte-identical to what the library call gives (or both report an error); the library calls themselves are judged by the other checks of C05; the input comes on stdin, as a file, as a gzip file or as a Nexus document (--format nexus, with or without translate table); half of the inputs are streams of 2-3 trees of different sizes and tip sets (every tree must be treated like a single one); non-trivial = multifurcating or rooted input",
 		Gen: func(t *rapid.T, thorough bool) CliCase {
-			o := gen.Opts{MinTips: 3, MaxTips: 12, Rooted: -1, MaxDeg: 5, Lens: gen.AnyPresence, LenVals: gen.DyadicZ, Sups: gen.AnyPresence}
+			o := gen.Opts{MinTips: 3, MaxTips: 12, Rooted: -1, MaxDeg: 5, Lens: gen.All, LenVals: gen.DyadicZ, Sups: gen.AnyPresence}
 			m := gen.Tree(t, o)
 			c := CliCase{Tree: m, Cmd: rapid.SampledFrom([]string{"outgroup-args", "outgroup-file", "outgroup-file", "midpoint", "unroot", "sort", "rotate-rand"}).Draw(t, "cmd")}
 			if strings.HasPrefix(c.Cmd, "outgroup") {
